@@ -151,5 +151,7 @@ func (c *CompleteLinkageGrouping) GroupClones(pairs []*ClonePair) []*CloneGroup 
 		return fragmentLess(groups[i].Fragments[0], groups[j].Fragments[0])
 	})
 
+	renumberGroups(groups)
+
 	return groups
 }
